@@ -1,1 +1,289 @@
-fn main() {}
+//! C13 — client/server jar merge is a faithful, annotated union.
+//! Observed: dukebox::merge::merge(client, server) -> ParsedJar, written out (`to_mem`) and re-opened.
+//! Oracle: entry-level expectation table over the two input jars; classes looked at through the harness' strict parser
+//! (cf::parse): side marks, union-exactly-once of fields/methods/interfaces, R-merge-order, facts of everything copied.
+mod genpair;
+mod jar;
+mod oracle;
+mod selfcheck;
+
+use cf::model::Class;
+use common::{par::*, report::{finish, Meta}, *};
+use dukebox::storage::{BasicFileAttributes, ClassRepr, FileJar, JarEntryEnum, NamedMemJar, ParsedJar, ParsedJarEntry, UnnamedMemJar};
+use genpair::*;
+use oracle::*;
+use std::collections::{BTreeMap, BTreeSet};
+use std::path::{Path, PathBuf};
+
+#[derive(Clone, Copy, Debug, PartialEq, Eq)]
+pub enum JarKind { NamedMem, UnnamedMem, Parsed, File, NamedAndParsed }
+
+fn parsed_jar(spec: &JarSpec) -> ParsedJar<ClassRepr, Vec<u8>> {
+    let mut entries = indexmap::IndexMap::new();
+    for e in &spec.entries {
+        let content = match &e.item { Item::Dir => JarEntryEnum::Dir, Item::Res(d) => JarEntryEnum::Other(d.clone()), Item::Class(c) => JarEntryEnum::Class(ClassRepr::Vec { data: c.bytes.clone() }) };
+        entries.insert(e.name.clone(), ParsedJarEntry { attr: BasicFileAttributes::default(), content });
+    }
+    ParsedJar { entries }
+}
+
+pub type Outcome = Result<Result<Vec<u8>, String>, PanicInfo>;
+
+/// the REAL merge, on the chosen jar representation; the result is written out with the repository's own `to_mem`
+fn run_merge(kind: JarKind, pair: &Pair, cz: &[u8], sz: &[u8], scratch: Option<&Path>) -> Outcome {
+    fn fin(r: anyhow::Result<ParsedJar<ClassRepr, Vec<u8>>>) -> Result<Vec<u8>, String> {
+        r.and_then(|p| p.to_mem()).map(|m| m.data).map_err(|e| format!("{e:#}"))
+    }
+    match kind {
+        JarKind::NamedMem => guard(|| fin(dukebox::merge::merge(NamedMemJar { name: "client".into(), data: cz.to_vec() }, NamedMemJar { name: "server".into(), data: sz.to_vec() }))),
+        JarKind::UnnamedMem => guard(|| fin(dukebox::merge::merge(UnnamedMemJar { data: cz.to_vec() }, UnnamedMemJar { data: sz.to_vec() }))),
+        JarKind::Parsed => guard(|| fin(dukebox::merge::merge(parsed_jar(&pair.client), parsed_jar(&pair.server)))),
+        JarKind::NamedAndParsed => guard(|| fin(dukebox::merge::merge(NamedMemJar { name: "client".into(), data: cz.to_vec() }, parsed_jar(&pair.server)))),
+        JarKind::File => {
+            let Some(dir) = scratch else { return run_merge(JarKind::NamedMem, pair, cz, sz, None) };
+            let (cp, sp) = (dir.join("client.jar"), dir.join("server.jar"));
+            if std::fs::create_dir_all(dir).is_err() || std::fs::write(&cp, cz).is_err() || std::fs::write(&sp, sz).is_err() { eprintln!("HARNESS-ERROR cannot write scratch jars under {dir:?}"); std::process::exit(3); }
+            let r = guard(|| fin(dukebox::merge::merge(FileJar { path: cp.clone() }, FileJar { path: sp.clone() })));
+            let _ = std::fs::remove_dir_all(dir);
+            r
+        }
+    }
+}
+
+struct Scratch { root: PathBuf }
+impl Scratch {
+    fn new(ctx: &Ctx) -> Scratch { let root = PathBuf::from(format!("{}/scratch/c13-{}", ctx.out_dir, std::process::id())); let _ = std::fs::remove_dir_all(&root); Scratch { root } }
+    fn dir(&self, workload: &str, case: u64) -> PathBuf { self.root.join(format!("{workload}-{case}")) }
+}
+impl Drop for Scratch { fn drop(&mut self) { let _ = std::fs::remove_dir_all(&self.root); } }
+
+fn listing(j: &JarSpec) -> Vec<String> { j.entries.iter().map(|e| format!("{}{}", e.name, match &e.item { Item::Dir => " (dir)".to_string(), Item::Res(d) => format!(" ({} bytes)", d.len()), Item::Class(c) => format!(" (class, {} bytes)", c.bytes.len()) })).collect() }
+
+fn class_of(e: Option<&Entry>) -> Option<(&Class, &[u8])> { match e.map(|e| &e.item) { Some(Item::Class(c)) => Some((&c.model, c.bytes.as_slice())), _ => None } }
+
+/// everything the statement says about the output jar of one pair; returns the shape fingerprint parts and whether the pair was non-trivial
+fn judge_pair(rep: &mut Report, pair: &Pair, out_zip: &[u8], kind: JarKind) -> (Vec<String>, bool) {
+    let jars = || json!({"jar_kind": format!("{kind:?}"), "client_jar": listing(&pair.client), "server_jar": listing(&pair.server)});
+    let names = match jar::central_names(out_zip) { Ok(n) => n, Err(e) => { rep.violation("C13 output jar: central directory unreadable", json!({"error": e, "jars": jars(), "output_zip_hex": hex(out_zip)})); return (vec![], false); } };
+    let contents: BTreeMap<String, jar::Body> = match jar::read_all(out_zip) { Ok(c) => c.into_iter().collect(), Err(e) => { rep.violation("C13 output jar: unreadable", json!({"error": e, "jars": jars()})); return (vec![], false); } };
+    let mut n_out: BTreeMap<&str, usize> = BTreeMap::new();
+    for n in &names { *n_out.entry(n.as_str()).or_insert(0) += 1; }
+    let union: BTreeSet<&str> = pair.client.entries.iter().chain(&pair.server.entries).map(|e| e.name.as_str()).collect();
+    let mut parts = vec![]; let mut nontrivial = false;
+    for n in n_out.keys() { if !union.contains(n) { rep.violation("C13 entries: output has an entry that is in neither jar", json!({"entry": n, "jars": jars(), "output_names": names})); } }
+    for name in union {
+        let (ce, se) = (pair.client.get(name), pair.server.get(name));
+        let (inc, ins) = (ce.is_some(), se.is_some());
+        let got = n_out.get(name).copied().unwrap_or(0);
+        let (kind_s, sides_s) = (kind_name(name), sides_name(inc, ins));
+        let d = || json!({"entry": name, "occurrences_in_output": got, "jars": jars(), "output_names": names});
+        let nc = classify(name);
+        match expect(name, inc, ins) {
+            Expect::Open => { rep.count(&format!("entries.open.{}", if got > 0 { "kept" } else { "dropped" })); continue; }
+            Expect::Absent => {
+                match &nc {
+                    NameClass::Signature(ext) => { rep.count(&format!("entries.signature.{ext}")); if got > 0 { rep.violation(format!("C13 entries: META-INF signature file kept ({})", if *ext == "SF" || *ext == "RSA" { ".SF/.RSA" } else { ".DSA/.EC" }), d()); } }
+                    _ => { rep.count("entries.server_library_class"); if got > 0 { rep.violation("C13 entries: class of a library bundled by the server kept", d()); } }
+                }
+                continue;
+            }
+            Expect::Present => {}
+        }
+        rep.count(&format!("entries.expected.{kind_s}.{}", sides_s.replace(' ', "_")));
+        if got == 0 { rep.violation(format!("C13 entries: {kind_s} missing from the output ({sides_s})"), d()); continue; }
+        if got > 1 { rep.violation(format!("C13 entries: {kind_s} more than once in the output ({sides_s})"), d()); continue; }
+        let Some(body) = contents.get(name) else { rep.violation("C13 output jar: entry listed in the central directory cannot be read", d()); continue; };
+        let src = ce.or(se).map(|e| &e.item);
+        match (src, body) {
+            (Some(Item::Dir), jar::Body::Dir) => rep.count("content.dir_is_dir"),
+            (Some(Item::Dir), _) | (Some(_), jar::Body::Dir) => rep.violation("C13 entries: directory/file kind of an entry changed", d()),
+            (Some(Item::Res(_)), jar::Body::File(data)) => {
+                if nc == NameClass::Manifest { rep.count(if data.starts_with(b"Manifest-Version: 1.0\n") { "content.manifest.rewritten(not judged)" } else { "content.manifest.other(not judged)" }); continue; }
+                let cd = match ce.map(|e| &e.item) { Some(Item::Res(x)) => Some(x), _ => None };
+                let sd = match se.map(|e| &e.item) { Some(Item::Res(x)) => Some(x), _ => None };
+                let dd = || json!({"entry": name, "client_hex": cd.map(|x| hex(x)), "server_hex": sd.map(|x| hex(x)), "output_hex": hex(data)});
+                match (cd, sd) {
+                    (Some(c), Some(s)) if c != s => { if data == c { rep.count("content.resource.differing.client_taken"); } else if data == s { rep.count("content.resource.differing.server_taken"); } else { rep.violation("C13 resource present on both sides with different content: output is neither side's content", dd()); } }
+                    (Some(c), _) => if data == c { rep.count("content.resource.equal_to_source"); } else { rep.violation(format!("C13 resource content differs from its source ({sides_s})"), dd()); },
+                    (None, Some(s)) => if data == s { rep.count("content.resource.equal_to_source"); } else { rep.violation(format!("C13 resource content differs from its source ({sides_s})"), dd()); },
+                    (None, None) => {}
+                }
+            }
+            (Some(Item::Class(_)), jar::Body::File(data)) => {
+                let cx = Cx { entry: name, client: class_of(ce), server: class_of(se), out: data };
+                match (cx.client, cx.server) {
+                    (Some(_), None) => { rep.count("classes.client_only"); nontrivial = true; parts.push("C".to_string()); judge_one_sided(rep, &cx, Side::Client); }
+                    (None, Some(_)) => { rep.count("classes.server_only"); nontrivial = true; parts.push("S".to_string()); judge_one_sided(rep, &cx, Side::Server); }
+                    (Some(c), Some(s)) if c.1 == s.1 => {
+                        rep.count("classes.identical"); parts.push("=".to_string());
+                        if data.as_slice() == c.1 { rep.count("classes.identical.passed_through"); } else { rep.violation("C13 identical class not passed through byte-identical", cx.detail(json!({}))); }
+                    }
+                    (Some(c), Some(s)) => {
+                        rep.count(if c.0 == s.0 { "classes.same_facts_other_bytes" } else { "classes.differing" });
+                        if let Some(st) = judge_differing(rep, &cx) {
+                            let p = |o: &OrderStat| format!("{}{}{}{}{}", o.client_only.min(3), o.server_only.min(3), o.shared.min(3), if o.compatible { 'c' } else { 'x' }, if o.server_only_before_shared { '<' } else { '-' });
+                            parts.push(format!("D[{} {} {}]", p(&st.fields), p(&st.methods), p(&st.interfaces)));
+                            if c.0 != s.0 { nontrivial = true; }
+                        }
+                    }
+                    (None, None) => {}
+                }
+            }
+            (None, _) => {}
+        }
+    }
+    parts.sort();
+    (parts, nontrivial)
+}
+
+fn report_outcome_failure(rep: &mut Report, o: &Outcome, pair: &Pair, kind: JarKind) -> bool {
+    let jars = || json!({"jar_kind": format!("{kind:?}"), "client_jar": listing(&pair.client), "server_jar": listing(&pair.server)});
+    match o {
+        Err(p) => { rep.violation(format!("C13 merge panics on a pair inside the stated domain: {}", p.site()), json!({"panic": p.message, "at": format!("{}:{}", p.file, p.line), "jars": jars()})); true }
+        Ok(Err(e)) => { rep.violation(format!("C13 merge refuses a pair inside the stated domain: {}", template(e.rsplit(": ").next().unwrap_or(e))), json!({"error": e, "jars": jars()})); true }
+        Ok(Ok(_)) => false,
+    }
+}
+
+fn pair_case(rng: &mut Rng, rep: &mut Report, case: u64, workload: &str, pc: &PairCfg, scratch: &Scratch) {
+    let planned = gen_pair(rng, pc);
+    rep.add("gen.emit_failures", planned.emit_failures as u64);
+    let kind = match rng.below(20) { 0..=11 => JarKind::NamedMem, 12 | 13 => JarKind::UnnamedMem, 14..=16 => JarKind::Parsed, 17 | 18 => JarKind::NamedAndParsed, _ => JarKind::File };
+    let pair = &planned.pair;
+    let (cz, sz) = match (jar::build_zip(&pair.client.raw()), jar::build_zip(&pair.server.raw())) { (Ok(a), Ok(b)) => (a, b), (a, b) => { eprintln!("HARNESS-ERROR cannot build input jar: {:?} {:?}", a.err(), b.err()); std::process::exit(3) } };
+    // harness self-check: the independent directory scan sees exactly the entries that were put in
+    for (z, spec) in [(&cz, &pair.client), (&sz, &pair.server)] {
+        let want: Vec<&str> = spec.entries.iter().map(|e| e.name.as_str()).collect();
+        if jar::central_names(z).ok().as_deref().map(|v| v.iter().map(|s| s.as_str()).collect::<Vec<_>>()) != Some(want) { eprintln!("HARNESS-ERROR central directory scan disagrees with the jar builder (case {:?})", rep.cur); std::process::exit(3); }
+    }
+    let dir = scratch.dir(workload, case);
+    let out = run_merge(kind, pair, &cz, &sz, Some(&dir));
+    rep.eval();
+    rep.count(&format!("jar_kind.{kind:?}"));
+    for (_, cat, shapes) in &planned.cats { rep.count(&format!("planned.{cat:?}")); if let Some(s) = shapes { for x in s { rep.seen("shapes", &format!("{x:?}")); } } }
+    if report_outcome_failure(rep, &out, pair, kind) { return; }
+    let Ok(Ok(out_zip)) = out else { return };
+    let (parts, nontrivial) = judge_pair(rep, pair, &out_zip, kind);
+    if nontrivial { rep.nontrivial(rng::fnv_str(&parts.join("|"))); }
+    if pair.client.entries.len() + pair.server.entries.len() <= 14 && rep.samples.len() < 2 {
+        rep.sample(|| json!({"kind": "jar pair", "jar_kind": format!("{kind:?}"), "client_jar": listing(&pair.client), "server_jar": listing(&pair.server), "output_names": jar::central_names(&out_zip).unwrap_or_default(), "class_shapes": parts}));
+    }
+}
+
+// ------------------------------------------------------------------------------------------------ header differences
+
+const ASPECTS: [&str; 9] = ["class file version", "class access flags", "super class", "this_class name", "class Deprecated or Synthetic attribute",
+    "Deprecated or Synthetic attribute of a shared member", "InnerClasses entry for the same inner class", "SourceFile or Signature", "nothing (control)"];
+
+/// pairs whose class HEADERS (or attributes the merger insists on being equal) differ. The statement does not say which side
+/// wins or that such pairs merge at all: a refusal is counted; a successful merge is judged on members/interfaces as usual;
+/// a PANIC of the library is an observation with its own signature.
+fn header_case(rng: &mut Rng, rep: &mut Report, case: u64) {
+    let aspect = ASPECTS[(case % ASPECTS.len() as u64) as usize];
+    let cfg = gen_cfg();
+    let stem = "net/minecraft/Header";
+    let mut base = if rng.bool() { simple_class(rng, stem, 4, 4, 2) } else { rich_class(rng, &cfg, stem, 3, 3, 2) };
+    if base.major < 49 { base.major = 52; base.minor = 0; }
+    let sh = [*rng.pick(&SHAPES), *rng.pick(&SHAPES), *rng.pick(&SHAPES)];
+    let mut d = derive_sides(rng, &base, sh, false);
+    let s = &mut d.server;
+    match aspect {
+        "class file version" => s.major = if s.major == 52 { 55 } else { 52 },
+        "class access flags" => s.access ^= 0x0010,
+        "super class" => s.super_class = Some(cf::model::JS::new("net/minecraft/OtherSuper")),
+        "this_class name" => s.this_class = cf::model::JS::new("net/minecraft/HeaderOnServer"),
+        "class Deprecated or Synthetic attribute" => if rng.bool() { s.deprecated = !s.deprecated } else { s.synthetic = !s.synthetic },
+        "Deprecated or Synthetic attribute of a shared member" => {
+            // make sure there is a shared member, then flip the attribute on the server's copy
+            if let Some(m) = d.client.methods.first().cloned() { if !s.methods.iter().any(|x| x.name == m.name && x.desc == m.desc) { s.methods.insert(0, m); } }
+            else { let m = cf::model::Method { access: 0x0401, name: cf::model::JS::new("shared"), desc: cf::model::JS::new("()V"), ..Default::default() }; d.client.methods.push(m.clone()); s.methods.push(m); }
+            let key = (d.client.methods[0].name.clone(), d.client.methods[0].desc.clone());
+            if let Some(m) = s.methods.iter_mut().find(|x| x.name == key.0 && x.desc == key.1) { if rng.bool() { m.deprecated = !m.deprecated } else { m.synthetic = !m.synthetic } }
+        }
+        "InnerClasses entry for the same inner class" => {
+            let ic = |flags: u16| cf::model::InnerClass { inner: cf::model::JS::new("net/minecraft/Header$In"), outer: Some(cf::model::JS::new(stem)), name: Some(cf::model::JS::new("In")), flags };
+            d.client.inner_classes = Some(vec![ic(0x0001)]); s.inner_classes = Some(vec![ic(0x0009)]);
+        }
+        "SourceFile or Signature" => if rng.bool() { s.source_file = Some(cf::model::JS::new("ServerName.java")) } else { s.signature = if s.signature.is_some() { None } else { Some(cf::model::JS::new("Ljava/lang/Object;")) } },
+        _ => {}
+    }
+    let (Ok(cb), Ok(sb)) = (emit_checked(&d.client, &cf::emit::Layout::canonical()), emit_checked(&d.server, &cf::emit::Layout::canonical())) else { rep.count("gen.emit_failures"); return };
+    let name = format!("{stem}.class");
+    let mk = |m: &Class, b: Vec<u8>| JarSpec { entries: vec![Entry { name: name.clone(), item: Item::Class(ClassSide { model: m.clone(), bytes: b }), deflate: true }] };
+    let pair = Pair { client: mk(&d.client, cb), server: mk(&d.server, sb) };
+    let (Ok(cz), Ok(sz)) = (jar::build_zip(&pair.client.raw()), jar::build_zip(&pair.server.raw())) else { eprintln!("HARNESS-ERROR cannot build input jar"); std::process::exit(3) };
+    let out = run_merge(JarKind::NamedMem, &pair, &cz, &sz, None);
+    rep.eval();
+    let key = aspect.replace(' ', "_");
+    match out {
+        Err(p) => {
+            rep.count(&format!("headers.{key}.panic"));
+            if aspect == "nothing (control)" { report_outcome_failure(rep, &Err(p), &pair, JarKind::NamedMem); }
+            else { rep.violation(format!("C13 merge panics (instead of merging or refusing) on a class pair that differs in: {aspect} [{}]", p.file.strip_prefix("/repo/").unwrap_or(&p.file)), json!({"panic": p.message.chars().take(400).collect::<String>(), "at": format!("{}:{}", p.file, p.line), "client_class_hex": hex(class_of(pair.client.get(&name)).map(|c| c.1).unwrap_or(&[])), "server_class_hex": hex(class_of(pair.server.get(&name)).map(|c| c.1).unwrap_or(&[]))})); }
+        }
+        Ok(Err(e)) => {
+            rep.count(&format!("headers.{key}.refused"));
+            if aspect == "nothing (control)" { report_outcome_failure(rep, &Ok(Err(e)), &pair, JarKind::NamedMem); }
+        }
+        Ok(Ok(z)) => {
+            rep.count(&format!("headers.{key}.merged"));
+            let (parts, nt) = judge_pair(rep, &pair, &z, JarKind::NamedMem);
+            if nt { rep.nontrivial(rng::fnv_str(&format!("hdr|{aspect}|{}", parts.join("|")))); }
+        }
+    }
+}
+
+fn main() {
+    let mut ctx = Ctx::from_args("C13", 40, 480);
+    let replay = load_replay(&mut ctx);
+    let mut rep = Report::new();
+    selfcheck::run();
+    let scratch = Scratch::new(&ctx);
+
+    // every workload gets its own slice of the wall-clock budget, so that a loaded machine cannot starve the later ones
+    let slice = |frac: f64| -> Ctx { let mut c = ctx.clone(); let left = ctx.budget.saturating_sub(ctx.start.elapsed()); c.start = std::time::Instant::now(); c.budget = left.min(ctx.budget.mul_f64(frac)); c };
+    run_cases(&slice(0.10), &replay, &mut rep, "headers", ctx.tier.pick(450, 4_500), header_case);
+    // resources with different content on the two sides (kept small: the merger prints one warning line per such entry)
+    let res = PairCfg { classes: (0, 2), resources: (3, 8), differing_resources: true, simple_classes: true, list_max: 4 };
+    run_cases(&slice(0.05), &replay, &mut rep, "resources", ctx.tier.pick(100, 600), |rng, rep, case| pair_case(rng, rep, case, "resources", &res, &scratch));
+    // full jars: all entry kinds, all class categories, generated classes drawn from the whole format
+    let full = PairCfg { classes: (2, 9), resources: (0, 6), differing_resources: false, simple_classes: false, list_max: 7 };
+    run_cases(&slice(0.45), &replay, &mut rep, "pairs", ctx.tier.pick(3_500, 60_000), |rng, rep, case| pair_case(rng, rep, case, "pairs", &full, &scratch));
+    // member order: long, cheap member lists in every shape
+    let order = PairCfg { classes: (3, 8), resources: (0, 1), differing_resources: false, simple_classes: true, list_max: 12 };
+    run_cases(&slice(1.0), &replay, &mut rep, "order", ctx.tier.pick(7_500, 150_000), |rng, rep, case| pair_case(rng, rep, case, "order", &order, &scratch));
+    drop(scratch);
+
+    let mut meta = Meta::new("exploration", "seeded client/server jar pairs: 2-9 classes per pair, each client-only / server-only / identical / same facts in other bytes / differing (both sides derived from ONE generated model by keeping, dropping and reordering fields, methods and interfaces per side in 10 shapes: interleaving, prefix, suffix, middle, permutation, disjoint, shuffled, all shared, one-sided moved, two shared swapped), placed in net/minecraft, the root package or library-looking packages; resources one-sided / equal / different; directories; MANIFEST.MF; META-INF signature files (.SF .RSA .DSA .EC and look-alikes); jars handed over as NamedMemJar, UnnamedMemJar, ParsedJar, FileJar. A pair is non-trivial if it has a one-sided class or a class whose two sides differ in facts; distinct = distinct multiset of per-class shapes (category; per differing class the numbers of client-only/server-only/shared fields, methods, interfaces (capped at 3), order compatibility, server-only-before-shared)")
+        .assume("the independent parser and emitter (harness/cf) implement JVMS chapter 4 correctly; parse(emit(M)) == M is checked for every generated class")
+        .assume("the zip crate reads and writes archives correctly (entry names are additionally taken from the harness' own scan of the central directory)")
+        .assume("'bundled server library' = a class that only the server jar has, in a package other than net/minecraft and its sub-packages; 'signature file' = META-INF/*.SF, *.RSA, *.DSA, *.EC (JAR specification); nested or lower-case look-alikes and SIG-* are not judged")
+        .assume("pairs whose class headers differ (version, flags, super class, Deprecated/Synthetic, InnerClasses conflict) are outside the statement: refusals are counted, successful merges are judged on members and interfaces, panics are recorded under their own signature")
+        .assume("not judged: entry order, timestamps, MANIFEST.MF content, which side's version of a shared member or of a differing resource is taken, record components / permitted subclasses of differing classes, interface order");
+    if replay.is_none() {
+        let g = |k: &str| rep.get(k);
+        meta.oblige("client-only classes judged (>= 150)", g("classes.client_only") >= 150);
+        meta.oblige("server-only classes judged (>= 100)", g("classes.server_only") >= 100);
+        meta.oblige("server-only library classes expected absent (>= 50)", g("entries.server_library_class") >= 50);
+        meta.oblige("identical classes judged (>= 150)", g("classes.identical") >= 150);
+        meta.oblige("differing classes judged (>= 1000)", g("classes.differing") >= 1000);
+        meta.oblige("same facts / other bytes classes judged (>= 30)", g("classes.same_facts_other_bytes") >= 30);
+        for k in ["field", "method", "interface"] {
+            meta.oblige(format!("{k}s of all three roles seen in differing classes (>= 300 each)"), g(&format!("{k}s.client_only")) >= 300 && g(&format!("{k}s.server_only")) >= 300 && g(&format!("{k}s.shared")) >= 300);
+        }
+        for k in ["field", "method"] {
+            meta.oblige(format!("{k} lists with compatible orders (>= 300), with all three roles (>= 100), with a server-only {k} in front of a shared one (>= 100)"),
+                g(&format!("order.{k}.compatible")) >= 300 && g(&format!("order.{k}.compatible.all_three_roles")) >= 100 && g(&format!("order.{k}.compatible.server_only_before_a_shared_one")) >= 100);
+            meta.oblige(format!("{k} lists with incompatible orders (>= 100)"), g(&format!("order.{k}.incompatible")) >= 100);
+        }
+        meta.oblige("all 10 list shapes used", rep.seen_n("shapes") == 10);
+        meta.oblige("one-sided marks and unmarked shared members both observed (>= 500 each)", g("marks.one_sided_marked") + g("marks.one_sided_interface_marked") >= 500 || rep.violations.keys().any(|k| k.contains("mark")) );
+        meta.oblige("signature files of all four extensions present in inputs", ["SF", "RSA", "DSA", "EC"].iter().all(|e| g(&format!("entries.signature.{e}")) > 0));
+        meta.oblige("manifest, directories and resources on one side and on both (>= 10 each)", ["manifest", "directory", "resource"].iter().all(|k| g(&format!("entries.expected.{k}.in_both_jars")) >= 10 && g(&format!("entries.expected.{k}.client_only")) >= 10 && g(&format!("entries.expected.{k}.server_only")) >= 10));
+        meta.oblige("resources with different content on the two sides (>= 20)", g("content.resource.differing.client_taken") + g("content.resource.differing.server_taken") >= 20 || rep.violations.keys().any(|k| k.contains("resource present on both sides")));
+        meta.oblige("every jar representation used", ["NamedMem", "UnnamedMem", "Parsed", "NamedAndParsed", "File"].iter().all(|k| g(&format!("jar_kind.{k}")) > 0));
+        meta.oblige("every header aspect exercised", ASPECTS.iter().all(|a| { let k = a.replace(' ', "_"); g(&format!("headers.{k}.panic")) + g(&format!("headers.{k}.refused")) + g(&format!("headers.{k}.merged")) > 0 }));
+        meta.oblige("control pairs of the header workload merge", g("headers.nothing_(control).merged") > 0);
+    }
+    std::process::exit(finish(&ctx, rep, meta));
+}
